@@ -13,7 +13,8 @@ let num_of s =
 let string_of_num = function
   | Fix z -> "f:" ^ hex_of_z z
   | Big (s, d) -> "b:" ^ hex_of_z s ^ ":" ^ string_of_zlist d
-let mulfuel a b = nat_of_int (2 * (List.length a + List.length b) + 16)
+(* the fuel proved sufficient for every operand pair (theorem mul_karatsuba_fuel_bound): a FUEL answer of bignum_mul is impossible *)
+let mulfuel a b = nat_of_int (64 * (List.length a + List.length b) + 3)
 
 let string_of_rres = function
   | RInt v -> string_of_num v
@@ -37,6 +38,7 @@ let handle = function
      let z = z_of_hex in
      string_of_res (specc2 (nat_of_int (int_of_string op)) (z a1) (z b1) (z a2) (z b2) (z c1) (z d1) (z c2) (z d2))
   | ["spec_q"; n; d] -> string_of_res (spec_q (z_of_hex n) (z_of_hex d))
+  | ["spec_radix_c"; r; a; b; c; d] -> string_of_res (spec_radix_c (z_of_hex r) (z_of_hex a) (z_of_hex b) (z_of_hex c) (z_of_hex d))
   | ["spec_radix_q"; r; n; d] -> string_of_res (spec_radix_q (z_of_hex r) (z_of_hex n) (z_of_hex d))
   | ["spec_exact_bits"; b] -> string_of_res (spec_exact_bits (z_of_hex b))
   | ["spec_inexact_bits"; n; d] -> string_of_res (spec_inexact_bits (z_of_hex n) (z_of_hex d))
